@@ -280,6 +280,15 @@ func (idx *PQIndex) Add(vector VectorNode) error {
 		return err
 	}
 
+	// Re-adding an id that is still soft-deleted: purge the tombstoned entry
+	// first. Otherwise the new content would stay hidden behind the old
+	// tombstone and be dropped, together with the old one, by the next Flush.
+	if idx.deletedNodes.Contains(vector.ID()) {
+		if err := idx.flushLocked(); err != nil {
+			return err
+		}
+	}
+
 	// Encode vector into PQ code
 	code := idx.encode(vector.Vector())
 
@@ -368,6 +377,13 @@ func (idx *PQIndex) Remove(vector VectorNode) error {
 func (idx *PQIndex) Flush() error {
 	idx.mu.Lock()
 	defer idx.mu.Unlock()
+
+	return idx.flushLocked()
+}
+
+// flushLocked physically removes all soft-deleted entries.
+// The caller must hold idx.mu for writing.
+func (idx *PQIndex) flushLocked() error {
 
 	// Quick exit if nothing to flush
 	deletedCount := int(idx.deletedNodes.GetCardinality())
